@@ -122,6 +122,9 @@ def shards(tier):
         out.append(('phred', short))
         out.append(('shapes', short))
         out.append(('liblen', short))
+    out.append(('session', 'forward'))
+    out.append(('session', 'reverse'))
+    out.append(('session', 'interleaved'))
     return out
 
 
@@ -355,7 +358,74 @@ def _codec(case):
     return out
 
 
+def _session_names():
+    """one demultiplexed read name (pair) per strategy: a heterogeneous sequence as a merged BAM would hold"""
+    out = []
+    for short in _strategies() + [USER]:
+        inputs = _inputs(short)
+        if not inputs:
+            continue
+        label, plant, se = inputs[0]
+        case = _case(short, label, plant, se)
+        st, payload = _encode(case)
+        if st != 'ok':
+            continue
+        lines = payload[2]
+        if any(not isinstance(x, str) for x in lines):
+            continue
+        out.append((short, [l[1:] for l in lines]))
+    return out
+
+
+def _digest(flagger, names):
+    import pysam
+    segs = []
+    for i, name in enumerate(names):
+        a = pysam.AlignedSegment()
+        a.query_name = name
+        a.flag = (77 if i == 0 else 141) if len(names) == 2 else 4
+        segs.append(a)
+    flagger.digest(segs)
+    return [(a.query_name, dict(a.get_tags())) for a in segs]
+
+
+def run_session(order):
+    """ONE QueryNameFlagger instance decodes reads of all strategies in sequence (as the tagger does on a merged BAM);
+    every read must come out exactly as from a fresh flagger"""
+    seq = _session_names()
+    if order == 'reverse':
+        seq = seq[::-1]
+    elif order == 'interleaved':
+        seq = seq[0::2] + seq[1::2]
+    viols = {}
+    try:
+        shared = _FN['flagger']()
+        for short, names in seq:
+            fresh = _digest(_FN['flagger'](), names)
+            got = _digest(shared, names)
+            if got != fresh:
+                diff = {}
+                for (n1, t1), (n2, t2) in zip(fresh, got):
+                    for k in sorted(set(t1) | set(t2)):
+                        if t1.get(k) != t2.get(k):
+                            diff[k] = (t1.get(k), t2.get(k))
+                    if n1 != n2:
+                        diff['query_name'] = (n1, n2)
+                viols.setdefault('decode:one-flagger-many-reads:tags-differ-from-a-fresh-flagger',
+                                 {'strategy': short, 'fresh_vs_shared': diff, 'order': order})
+    except Exception as ex:      # noqa
+        viols.setdefault(f'decode:one-flagger-many-reads:exception:{type(ex).__name__}', repr(ex))
+    return [(s, d) for s, d in viols.items()], len(seq)
+
+
 def run_shard(shard, tier, acc):
+    if shard[0] == 'session':
+        case = {'fn': 'session', 'order': shard[1]}
+        viols, n = run_session(shard[1])
+        acc.case(case, transitions=n, nontrivial=True, outcome=f'session:{shard[1]}:reads={n}')
+        for sig, d in viols:
+            acc.violation(sig, case, d)
+        return
     setup()
     if shard[0] == 'codec':
         a = shard[1]
@@ -384,6 +454,9 @@ def run_shard(shard, tier, acc):
 
 
 def replay(case):
+    if case.get('fn') == 'session':
+        setup()
+        return run_session(case['order'])[0]
     setup()
     if case.get('fn') == 'codec':
         return _codec(case)
